@@ -91,6 +91,42 @@ class _Unsupported(Exception):
     pass
 
 
+def _walk_loopfree(node):
+    """nodes of a statement, not descending into nested loops / functions (whose break / continue are their own)"""
+    todo = [node]
+    while todo:
+        n = todo.pop()
+        yield n
+        for ch in ast.iter_child_nodes(n):
+            if isinstance(ch, (ast.For, ast.AsyncFor, ast.While, ast.FunctionDef, ast.AsyncFunctionDef, ast.Lambda, ast.ClassDef)):
+                continue
+            todo.append(ch)
+
+
+def _generator_shape(node) -> bool:
+    """a generator function whose only exits are statement-level `yield <expr>` (no return, yield from, nested defs)"""
+    if not isinstance(node, ast.FunctionDef) or node.decorator_list and not all(isinstance(d, ast.Name) and d.id in ("staticmethod", "classmethod") for d in node.decorator_list):
+        return False
+    a = node.args
+    if a.vararg or a.kwarg or a.posonlyargs:
+        return False
+    ys = 0
+    parents = {}
+    for p_ in ast.walk(node):
+        for ch in ast.iter_child_nodes(p_):
+            parents[id(ch)] = p_
+    for n in _walk_local(node):
+        if isinstance(n, (ast.YieldFrom, ast.Return, ast.Await, ast.Global, ast.Nonlocal, ast.Try)):
+            return False
+        if isinstance(n, (ast.FunctionDef, ast.ClassDef, ast.Lambda)) and n is not node:
+            return False
+        if isinstance(n, ast.Yield):
+            if n.value is None or not isinstance(parents.get(id(n)), ast.Expr):
+                return False
+            ys += 1
+    return ys > 0
+
+
 def _has_return(st) -> bool:
     if isinstance(st, (ast.FunctionDef, ast.AsyncFunctionDef, ast.ClassDef)):
         return False  # a local definition: its returns are its own
@@ -245,6 +281,7 @@ class Inliner:
         self.P = program
         self.known = known
         self.helpers: Dict[str, object] = {}  # qual -> FuncInfo of inlinable unknown helpers
+        self.gen_helpers: Dict[str, object] = {}  # unknown private generator functions (inlined into `for` loops over them)
         self.log: List[str] = []
         self.inlined_count: Dict[str, int] = {}
         for q, fi in program.functions.items():
@@ -255,6 +292,9 @@ class Inliner:
                 continue
             sh = helper_shape(fi.node)
             if sh is None:
+                if _generator_shape(fi.node) and not is_prop and not self._calls_itself(fi):
+                    fi.node._mdsa_in_class = fi.cls is not None and fi.parent is None
+                    self.gen_helpers[q] = fi
                 continue
             if is_prop and (fi.cls is None or fi.parent is not None or len(fi.node.args.args) != 1):
                 continue
@@ -273,8 +313,15 @@ class Inliner:
         return False
 
     # ---------------------------------------------------------------- resolution
-    def resolve(self, caller, call: ast.Call):
+    def resolve(self, caller, call: ast.Call, table=None):
         """-> (helper FuncInfo, receiver expr or None) if the call targets an inlinable unknown helper"""
+        if table is not None:
+            saved = self.helpers
+            self.helpers = table
+            try:
+                return self.resolve(caller, call)
+            finally:
+                self.helpers = saved
         f = call.func
         P = self.P
         if isinstance(f, ast.Name):
@@ -336,7 +383,9 @@ class Inliner:
         tables (its statements are analysed in the callers).  Helpers still referenced by name (callbacks, call
         sites that could not be inlined) stay."""
         P = self.P
-        names = {fi.name for fi in self.helpers.values()}
+        allh = dict(self.helpers)
+        allh.update(self.gen_helpers)
+        names = {fi.name for fi in allh.values()}
         used: Set[str] = set()
         for m in P.modules.values():
             for n in ast.walk(m.tree):
@@ -344,7 +393,7 @@ class Inliner:
                     used.add(n.attr)
                 elif isinstance(n, ast.Name) and n.id in names:
                     used.add(n.id)
-        for q, fi in list(self.helpers.items()):
+        for q, fi in list(allh.items()):
             if fi.name in used or not self.inlined_count.get(q):
                 continue
             # overridden / overriding methods stay (dynamic dispatch)
@@ -517,6 +566,33 @@ class Inliner:
         if isinstance(st, ast.Try):
             for h in st.handlers:
                 h.body = self._block(fi, h.body)
+        # `for x in helper(..): BODY` over an unknown private generator: the generator's body with BODY at each yield
+        if isinstance(st, ast.For) and isinstance(st.iter, ast.Call) and not st.orelse and self.gen_helpers:
+            r = self.resolve(fi, st.iter, table=self.gen_helpers)
+            jumps = [x for b_ in st.body for x in _walk_loopfree(b_) if isinstance(x, (ast.Break, ast.Continue))]
+            if r is not None and not jumps and r[0].qual != fi.qual:
+                helper, recv = r
+                binds = _bind(helper.node, st.iter, recv, _method_kind(helper.node))
+                if binds is not None:
+                    self._count += 1
+                    tag = f"{helper.name.strip('_')}{self._count}"
+                    stmts, _r = instantiate(helper.node, binds, tag, raw=True)
+                    loop = st
+
+                    class Y(ast.NodeTransformer):
+                        def visit_Expr(self, node):
+                            if isinstance(node.value, ast.Yield):
+                                asg = ast.copy_location(ast.Assign(targets=[copy.deepcopy(loop.target)], value=node.value.value), node)
+                                return [asg] + copy.deepcopy(loop.body)
+                            return node
+
+                    wrapper = ast.Module(body=stmts, type_ignores=[])
+                    Y().visit(wrapper)
+                    for x in wrapper.body:
+                        ast.fix_missing_locations(x)
+                    self.inlined_count[helper.qual] = self.inlined_count.get(helper.qual, 0) + 1
+                    self.log.append(f"{fi.qual}: loop over the generator {helper.qual} at L{getattr(st, 'lineno', '?')} analysed as the generator's body with the loop body at each yield")
+                    return self._block(fi, wrapper.body)
         # `if helper(..):` / `if not helper(..):` with a multi-exit helper: the helper's decision structure replaces
         # the test (each `return v` selects the branch v selects), so that rules see the conditions themselves
         if isinstance(st, ast.If):
@@ -965,7 +1041,7 @@ def apply(program) -> List[str]:
         return []
     log = _inline_prebuilt_callables(program, known) if any(k.startswith("=") for k in known) else []
     inl = Inliner(program, known)
-    if inl.helpers:
+    if inl.helpers or inl.gen_helpers:
         inl.run()
         inl.drop_fully_inlined()
     sr = _scalar_replacement(program, known) if any(k.startswith("@") for k in known) else []
